@@ -117,10 +117,12 @@ PLAN = {
         "quick": [
             {"run": "TestC10_Totality", "checks": 4000},
             {"run": "TestC10_Missing|TestC10_Replay"},
+            {"run": "FuzzC10_LoadSearch"},
         ],
         "thorough": [
             {"run": "TestC10_Totality", "checks": 100000, "shards": 16, "timeout": 3000},
             {"run": "TestC10_Missing|TestC10_Replay"},
+            {"run": "FuzzC10_LoadSearch", "fuzz": "FuzzC10_LoadSearch", "fuzztime": "240s", "parallel": 16, "timeout": 900},
         ],
     },
     "C11": {
@@ -159,28 +161,34 @@ PLAN = {
         "quick": [
             {"run": "TestC14_Query", "checks": 40000},
             {"run": "TestC14_Limit", "checks": 5000},
+            {"run": "FuzzC14_ValidateQuery"},
         ],
         "thorough": [
             {"run": "TestC14_Query", "checks": 2000000, "shards": 14, "timeout": 3000},
             {"run": "TestC14_Limit", "checks": 200000, "shards": 2, "timeout": 3000},
+            {"run": "FuzzC14_ValidateQuery", "fuzz": "FuzzC14_ValidateQuery", "fuzztime": "120s", "parallel": 16, "timeout": 900},
         ],
     },
     "C15": {
         "quick": [
             {"run": "TestC15_Matrix", "checks": 3},
+            {"run": "TestC15_Transient", "checks": 400},
         ],
         "thorough": [
             {"run": "TestC15_Matrix", "checks": 208, "shards": 16, "timeout": 3000},
+            {"run": "TestC15_Transient", "checks": 40000, "shards": 4, "timeout": 3000},
         ],
     },
     "C16": {
         "quick": [
             {"run": "TestC16_Log", "checks": 3000},
             {"run": "TestC16_File", "checks": 20000},
+            {"run": "FuzzC16_HistoryFile"},
         ],
         "thorough": [
             {"run": "TestC16_Log", "checks": 150000, "shards": 10, "timeout": 3000},
             {"run": "TestC16_File", "checks": 1000000, "shards": 6, "timeout": 3000},
+            {"run": "FuzzC16_HistoryFile", "fuzz": "FuzzC16_HistoryFile", "fuzztime": "120s", "parallel": 16, "timeout": 900},
         ],
     },
     "C17": {
@@ -212,11 +220,13 @@ PLAN = {
             {"run": "TestC19_Cosine", "checks": 20000},
             {"run": "TestC19_Search", "checks": 2000},
             {"run": "TestC19_Replay"},
+            {"run": "FuzzC19_EmbeddingFiles"},
         ],
         "thorough": [
             {"run": "TestC19_Files", "checks": 5000, "shards": 8, "timeout": 3000},
             {"run": "TestC19_Cosine", "checks": 1000000, "shards": 4, "timeout": 3000},
             {"run": "TestC19_Search", "checks": 100000, "shards": 4, "timeout": 3000},
+            {"run": "FuzzC19_EmbeddingFiles", "fuzz": "FuzzC19_EmbeddingFiles", "fuzztime": "180s", "parallel": 16, "timeout": 900},
         ],
     },
     "C20": {
